@@ -163,3 +163,22 @@ NOT_APPLICABLE["C01"] = ("refinement over histories of path-taking public calls 
                          "Dir::create_file with a concrete one-character name did not finish in 25 min / 13 min (path mode) in CBMC and the "
                          "alloc-build long-name decoder alone exhausts 24-65 GB; no bound worth stating is reachable with this technique "
                          "(unit lemmas it would rest on are checked under C15/C16/C17/C03)")
+
+# ---- round 2: C01 is claimed for SINGLE operations from constructed states (the gate of DESIGN §3 C01 opened, see §7)
+CLAIMS["C01"] = {
+    "text": "Bounded model checking of single directory-level steps on a directly constructed volume (FAT12, fixed root directory "
+            "whose slots are a real window of arbitrary bytes): slot allocation is a first fit that overwrites no live slot and leaves "
+            "no gap; one listing step returns exactly the next slot the specification calls an entry, with the slot range a later "
+            "remove deletes, attaching a long name only from a well-formed run of that entry; entry creation changes only free "
+            "slots; remove / rename on a populated root have exactly the specified slot and FAT effect; a rejected name or an "
+            "existing target leaves the volume untouched.",
+    "note": "NOT a refinement proof over histories: one operation per harness from constructed states; listings are covered by "
+            "induction over the step (it depends on the stream position only). Out: paths of depth > 1, directories stored in "
+            "cluster chains (FAT32 root, sub-directories), several live handles, FAT16/32 for the namespace steps, long names in the "
+            "namespace steps (8.3 build; long-name pieces decided separately in the fixed-buffer build). memchr/memrchr of core are "
+            "stubbed by naive loops in the namespace steps.",
+    "design_ref": "DESIGN.md §3 C01 (gate) and §7",
+    "technique": "bounded model checking of the real Rust code (Kani/CBMC, cadical): one-step harnesses over arbitrary directory "
+                 "slots on a windowed device, reduced feature builds (std / std+lfn)",
+}
+NOT_APPLICABLE.pop("C01", None)
